@@ -180,6 +180,61 @@ package influx
 //@   store IndexOption.IndexList
 //@     requires [list_has_the_encoded_length] len(val) == indexListLen
 
+// The binary row codec (sql node -> store node, WAL records) decodes into POOLED objects: a Row slot, and slots of the
+// tag / field pools, come back holding whatever their previous use left there. A successful decode therefore writes every
+// part of the row and of each tag and field it hands out - unconditionally, also when the encoded part is empty (an empty
+// shard key, an empty string value): a part that is only written "if non-empty" keeps the previous occupant's bytes.
+//@ prop C07 C01
+//@ func (*Row).FastUnmarshalBinary
+//@   requires r != nil
+//@   ghost nm bool = false
+//@   ghost sk bool = false
+//@   ghost ts bool = false
+//@   store Row.Name
+//@     set nm = true
+//@   store Row.ShardKey
+//@     requires [shard_key_has_the_encoded_length] len(val) == skLen
+//@     set sk = true
+//@   store Row.Timestamp
+//@     set ts = true
+//@   ensures [name_shard_key_and_time_rewritten_on_every_successful_decode] result5 == nil ==> nm && sk && ts
+
+//@ func (*Row).unmarshalTags
+//@   requires r != nil
+//@   ghost k int = 0
+//@   ghost v int = 0
+//@   ghost tg bool = false
+//@   store Tag.Key
+//@     set k = k + 1
+//@   store Tag.Value
+//@     set v = v + 1
+//@   store Row.Tags
+//@     set tg = true
+//@   loop 1
+//@     invariant [every_tag_slot_gets_key_and_value] k == i && v == i && !tg && 0 <= i && i <= tagN && len(tagpool) == start + tagN && 0 <= start
+//@   ensures [tags_rewritten_on_every_successful_decode] result2 == nil ==> tg && k == len(r.Tags) && v == len(r.Tags)
+
+//@ prop C07 C01 C06
+//@ func (*Row).unmarshalFields
+//@   requires r != nil
+//@   ghost k int = 0
+//@   ghost ty int = 0
+//@   ghost v int = 0
+//@   ghost fs bool = false
+//@   store Field.Key
+//@     set k = k + 1
+//@   store Field.Type
+//@     set ty = ty + 1
+//@   store Field.StrValue
+//@     set v = v + 1
+//@   store Field.NumValue
+//@     set v = v + 1
+//@   store Row.Fields
+//@     set fs = true
+//@   loop 1
+//@     invariant [every_field_slot_gets_key_type_and_value] k == i && ty == i && v == i && !fs && 0 <= i && i <= fieldN && len(fieldpool) == start + fieldN && 0 <= start
+//@   ensures [fields_rewritten_on_every_successful_decode] result2 == nil ==> fs && k == len(r.Fields) && ty == len(r.Fields) && v == len(r.Fields)
+
 // Un-escaping of a quoted string field: in front of a quote, a run of k backslashes stands for k/2 literal backslashes
 // followed by the quote itself (\" is a quote, \\\" is a backslash and a quote ...): exactly k/2 of them are kept.
 //@ prop C06
